@@ -240,6 +240,9 @@ class _LocalDatePatternParser(_IPatternParser[LocalDate]):
                 used_fields
                 == (_PatternFields.YEAR | _PatternFields.MONTH_OF_YEAR_NUMERIC | _PatternFields.DAY_OF_MONTH)
                 and self._calendar == CalendarSystem.iso
+                # The year field accepts -9999 to 9999, which is one year more than the ISO calendar has;
+                # out-of-range years take the general path, which reports them.
+                and self._calendar.min_year <= self._year <= self._calendar.max_year
             ):
                 return self.__calculate_simple_iso_value(text)
 
